@@ -370,6 +370,10 @@ type Line struct {
 	Text      string
 	EOF       bool // ^D
 	Interrupt bool // ^C at the prompt: Readline returns ErrInterrupt
+	// Complete, if not empty, is typed and completed (TAB) before the line is
+	// entered: Readline calls the completion function fq handed it, the way the
+	// real line editor does, while fq sits in Readline
+	Complete string
 }
 
 // ReadlineEvent records one Readline call.
@@ -380,6 +384,9 @@ type ReadlineEvent struct {
 	Line     Line
 	OutLen   int // stdout length when the call was made
 	Returned bool
+	// completion: event numbers around the call of the completion function (0 = none)
+	CompSeq, CompRetSeq int
+	CompNames           int
 }
 
 // OS implements interp.OS.
@@ -400,6 +407,15 @@ type OS struct {
 	Opens      int
 	seq        int
 	OnReadline func(ev *ReadlineEvent) // called (in the fq task) when a Readline call starts
+	// HistSeq: event number of every History call (the `history` function of fq:
+	// a seam that is only ever called from inside a running evaluation)
+	HistSeq []int
+	// OnHistoryResume is called (in the fq task) when a History call continues after its
+	// scheduling point; pre is the event number of the call
+	OnHistoryResume func(pre int)
+	// HistoryYields: scheduling points per History call (0 = 1): more of them give the other
+	// tasks more chances to run while the calling evaluation is in progress
+	HistoryYields int
 }
 
 // New returns an OS with fixed defaults.
@@ -453,14 +469,30 @@ func (o *OS) Args() []string               { return o.ArgsV }
 func (o *OS) Environ() []string            { return o.Env }
 func (o *OS) ConfigDir() (string, error)   { return "/config", nil }
 func (o *OS) FS() fs.FS                    { return simFS{o} }
-func (o *OS) History() ([]string, error)   { return nil, nil }
+
+// History is a scheduling point: the task that evaluates `history` parks here
+// while its evaluation is in progress.
+//
+//go:norace
+func (o *OS) History() ([]string, error) {
+	pre := o.Seq()
+	o.HistSeq = append(o.HistSeq, pre)
+	simrt.Yield(SiteReadline)
+	for i := 1; i < o.HistoryYields; i++ {
+		simrt.Yield(SiteReadline)
+	}
+	if o.OnHistoryResume != nil {
+		o.OnHistoryResume(pre)
+	}
+	return []string{"1", "2"}, nil
+}
 
 func (o *OS) Readline(opts interp.ReadlineOpts) (string, error) {
-	return o.readline(opts.Prompt)
+	return o.readline(opts.Prompt, opts.CompleteFn)
 }
 
 //go:norace
-func (o *OS) readline(prompt string) (string, error) {
+func (o *OS) readline(prompt string, complete interp.CompleteFn) (string, error) {
 	ev := ReadlineEvent{Seq: o.Seq(), Prompt: prompt, OutLen: len(o.Out.Buf)}
 	var l Line
 	if o.linePos >= len(o.Lines) {
@@ -476,6 +508,13 @@ func (o *OS) readline(prompt string) (string, error) {
 		o.OnReadline(&o.RL[idx])
 	}
 	simrt.Yield(SiteReadline)
+	if l.Complete != "" && complete != nil {
+		o.RL[idx].CompSeq = o.Seq()
+		names, _ := complete(l.Complete, len(l.Complete))
+		o.RL[idx].CompNames = len(names)
+		o.RL[idx].CompRetSeq = o.Seq()
+		simrt.Yield(SiteReadline)
+	}
 	o.RL[idx].SeqRet = o.Seq()
 	o.RL[idx].Returned = true
 	switch {
